@@ -173,6 +173,8 @@ def handleEv (st : DSt) (r : Array String) : Except Verdict DSt := do
     | none =>
       -- a file that somebody else (the remover) already deleted: the removal fails; for a process that
       -- is giving up this was its unlock
+      -- a remover whose view has idempotent removes "deletes" a lock its owner removed a moment ago
+      if kind == "remover" && r.getD 6 "-" == "idempotent" then .ok (st.label "remover-removed-vanished-lock") else
       if pcOf st i == .stale3 then
         -- adoption after a passed second check; the old file was removed by the remover in between
         (if ok then
